@@ -1357,7 +1357,7 @@ def run(rep):
     found += stamp_scenario(rep)
     for i in range((10 if thorough else 2) * (3 if (dis_e or dis_r) else 1)):
         found += graph_project(rep, rng, i)
-    if dis_e and not found:
+    if dis_e and not rep.n_with_input:
         # widened search: ten times the scripts through the direct oracles of the same stage
         _, bad_e2 = stage_w_emit(rep, random.Random(rng.random()), 3000 if thorough else 400, tag='W:emit widened')
         found += bad_e2
@@ -1369,11 +1369,11 @@ def run(rep):
     if rep.traces == 0:
         rep.fail('no generated project could be configured: the system-level comparison did not run',
                  {'obligation': 'system-level correspondence'}, found_input=False)
-    if dis_e and not found:
+    if dis_e and not rep.n_with_input:
         i, call, iv, mv = dis_e[0]
         rep.fail('W:%s - emitter model and real rule handler disagree (%d cases), e.g. %r: impl %r, model %r' % (call[0], len(dis_e), call[1], iv, mv),
                  {'obligation': 'W:' + call[0], 'call': call, 'impl': iv, 'model': mv}, found_input=False)
-    if dis and not found:
+    if dis and not rep.n_with_input:
         i, call, iv, mv = dis[0]
         rep.fail('W:%s - model and implementation disagree (%d cases), e.g. %r: impl %r, model %r' % (call[0], len(dis), call[1], iv, mv),
                  {'obligation': 'W:' + call[0], 'call': call, 'impl': iv, 'model': mv}, found_input=False)
